@@ -1,4 +1,5 @@
 import SJ.Generated.Consts
+import SJ.Proofs.CopyIndep
 /-
 C16 — Copied strings decouple results from the input buffer; Clone is independent.
 -/
@@ -7,5 +8,19 @@ open SJ.Generated
 
 /-- A string payload refers to the string buffer iff bit 55 is set; offsets use the low 55 bits. -/
 theorem C16_string_flag : cSTRINGBUFBIT = 2^55 ∧ cSTRINGBUFMASK = cSTRINGBUFBIT - 1 := by decide
+
+open SJ SJ.Layout SJ.WalkLayout SJ.CopyIndep in
+/-- **Overwriting the input changes nothing observable (copied strings).** If every string value and key of the
+    document on the tape refers to the string buffer — what `parseString` writes for every string when
+    `copyStrings` is set (`needCopy := cfg.copyStrings || …`, SJ/Model/Stage2.lean) — then the complete read-back
+    through the iterator API is the same for *every* later content of `Message`. -/
+theorem C16_input_overwrite (pj : PJ) (vs : List LVal) (h : OkRoots pj vs 0) (ht : ∀ v ∈ vs, Tight v)
+    (hc : ∀ v ∈ vs, Copied pj v) (m : Bytes) : owalk (withMsg pj m) = owalk pj :=
+  owalk_msg_indep pj vs h ht hc m
+
+open SJ SJ.CopyIndep in
+/-- a string reference with the buffer flag never looks at `Message` -/
+theorem C16_string_ref (pj : PJ) (m : Bytes) (o l : UInt64) (h : (o &&& wSTRINGBUFBIT == 0) = false) :
+    stringByteAt (withMsg pj m) o l = stringByteAt pj o l := stringByteAt_withMsg pj m o l h
 
 end SJ.Properties.C16
